@@ -3,9 +3,8 @@
 EXTENDS Sched
 MC_DagEmptyAll  == DagConfigs(Outcomes, {"ABSENT"})
 MC_DagEmpty3    == DagConfigs({"ok", "fail", "raise"}, {"ABSENT"})
+MC_DagEmpty2    == DagConfigs({"ok", "fail"}, {"ABSENT"})
 MC_DagEmptyMal  == DagConfigs({"ok", "none", "notpair", "badstatus", "badupdate", "nonfinal"}, {"ABSENT"})
 MC_DagInit      == DagConfigs({"ok", "fail"}, Inits)
 MC_DagInitDone  == DagConfigs({"ok", "fail"}, {"ABSENT", "DONE"})
-MC_AnyEmpty     == AnyConfigs({"ok", "fail"}, {"ABSENT"})
-MC_AnyInit      == AnyConfigs({"ok"}, {"ABSENT", "DONE", "FAILED"})
 =============================================================================
